@@ -247,7 +247,7 @@ class GaussianPolicy(StochasticPolicyBase):
 
     def entropy(self, observations: jnp.ndarray) -> jnp.ndarray:
         """Compute entropy of policy for given observation."""
-        mean, log_var = self(observations)
+        mean, log_var = self.net(observations)
         log_std = jnp.clip(0.5 * log_var, -20.0, 2.0)
         std = jnp.exp(log_std)
         return dist.Normal(loc=mean, scale=std).entropy()
